@@ -50,6 +50,22 @@ def sweep_file(path: str) -> dict:
         return ids.setdefault(id(o), len(ids) + 1)
 
     out["trace"] = [[ev, oid(obj), 0 if (parent is None or obj is mod) else oid(parent), R._kind(obj) in ("module", "class")] for ev, obj, _node, parent in rec.ev]
+    # ... closed by one "intree" event per object hanging in the returned tree (members, overloads, accessors)
+    hanging, seen_ids = [], set()
+
+    def collect(o, depth=0):
+        for m in list(o.members.values()):
+            if id(m) in seen_ids:
+                continue
+            seen_ids.add(id(m))
+            hanging.append(m)
+            if not m.is_alias:
+                hanging.extend(x for x in [*((m.overloads or []) if R._kind(m) == "function" else []), getattr(m, "setter", None), getattr(m, "deleter", None)] if x is not None)
+                if depth < 50:
+                    collect(m, depth + 1)
+
+    collect(mod)
+    out["trace"] += [["intree", oid(o), 0, False] for o in [mod, *hanging]]
     out["protocol"] = sorted({"member-of-function" if cause == "member-of-function" else clause for clause, cause, _ in R.check_protocol(rec.ev, mod)})
     seen = set()
     for clause, cause, text in R.check_protocol(rec.ev, mod):
